@@ -35,6 +35,7 @@ thread_local! {
     static THREADS: Cell<usize> = const { Cell::new(1) };
     static REGION: Cell<u64> = const { Cell::new(0) };
     static DEPTH: Cell<u32> = const { Cell::new(0) };
+    static FIND_ANY_WORKER0: Cell<bool> = const { Cell::new(false) };
 }
 
 pub mod sim {
@@ -43,12 +44,18 @@ pub mod sim {
 
     /// sets the simulated worker count for the current run
     pub fn set_threads(t: usize) {
+        FIND_ANY_WORKER0.with(|c| c.set(false));
         THREADS.with(|c| c.set(t.max(1)));
         REGION.with(|c| c.set(0));
         DEPTH.with(|c| c.set(0));
     }
     pub fn regions() -> u64 {
         REGION.with(|c| c.get())
+    }
+    /// when set, `find_any` lets worker 0 run alone (the first match in range order wins, as in
+    /// the serial build); every other scheduling decision stays free
+    pub fn set_find_any_worker0(on: bool) {
+        FIND_ANY_WORKER0.with(|c| c.set(on));
     }
 }
 
@@ -451,7 +458,7 @@ impl RangeIter {
     pub fn find_any<P: Fn(&u64) -> bool>(self, pred: P) -> Option<u64> {
         next_region();
         stats::count("sched.find_any", 1);
-        let t = current_num_threads() as u64;
+        let t = if FIND_ANY_WORKER0.with(|c| c.get()) { 1 } else { current_num_threads() as u64 };
         let len = self.end.saturating_sub(self.start);
         if len == 0 {
             return None;
